@@ -70,4 +70,10 @@ def FlatFrom : Nat → List Col → Prop
   | _, [] => True
   | lo, e :: es => lo < e.min ∧ e.max = e.min ∧ FlatFrom e.min es
 
+/-- sorted, pairwise disjoint column ranges (what a saved file holds after `mergeExpandedCols`, and what
+the getters and the next save see when it is opened again); a flat list is the special case `max = min` -/
+def RangesFrom : Nat → List Col → Prop
+  | _, [] => True
+  | lo, e :: es => lo < e.min ∧ e.min ≤ e.max ∧ RangesFrom e.max es
+
 end XlModel.SaveCols
